@@ -30,6 +30,10 @@ def universe():
     pts += [{"time": T0, "meas": "m1", "tags": {"test": "x", "exists": "y", "map": "z", "search": "a"}, "fields": {"noop": 1, "matches": 0, "a": -2}},
             {"time": T0 + 1, "meas": "m1", "tags": {"test": "q"}, "fields": {"noop": -1, "a": -1}},
             {"time": T0, "meas": "", "tags": {"map": "x"}, "fields": {"a": 2 ** 61 - 1}}]
+    # points at instants that read the same on the wall clock of their zone (the two readings of a repeated hour)
+    import dbmodel as _M
+    for a, b in _M.FOLD_PAIRS:
+        pts += [{"time": a, "meas": "m1", "tags": {"a": "x"}, "fields": {"a": 1}}, {"time": b, "meas": "m1", "tags": {"a": "x"}, "fields": {"a": 1}}]
     return pts
 
 
@@ -70,7 +74,12 @@ def vocabulary():
           ("S", "fields", [("k", "matches")], ("exists",)), ("S", "tags", [("k", "search")], ("match", 0, 0)),
           ("S", "tags", [("m", 6), ("k", "a")], ("cmp", "==", ("s", "ab"))), ("S", "tags", [("m", 6), ("k", "b")], ("exists",)),
           ("S", "fields", [("m", 6), ("k", "a")], ("cmp", ">=", ("n", 1))), ("S", "tags", [("m", 0), ("k", "a")], ("cmp", "!=", ("s", "ab"))),
-          ("noop", "tags"), ("noop", "fields"), ("noop", "meas"), ("noop", "time")]
+          ("noop", "tags"), ("noop", "fields"), ("noop", "meas"), ("noop", "time"),
+          ("noop", "tags", "a"), ("noop", "tags", "zz"), ("noop", "fields", "a"), ("noop", "fields", "zz", "y")]
+    import dbmodel as _M
+    for a, b in _M.FOLD_PAIRS[:2]:
+        for op in ("==", "!=", "<=", ">"):
+            v += [("S", "time", [], ("cmp", op, ("t", a))), ("S", "time", [], ("cmp", op, ("t", b)))]
     # test functions that raise on some value types: well-formedness (total test) fails, outcome "raise" is compared too
     raising = [("S", "tags", [("k", "a")], ("user", 1)), ("S", "fields", [("k", "a")], ("user", 1)), ("S", "fields", [("k", "a")], ("user", 2)),
                ("S", "fields", [("k", "a")], ("user", 5)), ("S", "fields", [("k", "a")], ("user", 6))]     # bound methods of two instances of one class
